@@ -1534,6 +1534,7 @@ class SymPath:
     def __init__(self):
         self.fields: Dict[str, object] = {}   # attr -> linform | None (opaque)
         self.locs: Dict[str, object] = {}
+        self.preds: Dict[str, tuple] = {}     # boolean local -> (guard if true, guard if false, expr) captured when assigned
         self.guards: list = []                # (normal form | ("truth", text, polarity), node)
         self.events: list = []                # (kind, name, node, snapshot-of-fields)
         self.exit = None                      # ("return", node) | ("raise", text, node)
@@ -1542,6 +1543,7 @@ class SymPath:
         p = SymPath()
         p.fields, p.locs = dict(self.fields), dict(self.locs)
         p.guards, p.events, p.exit = list(self.guards), list(self.events), self.exit
+        p.preds = dict(self.preds)
         return p
 
     def subst(self):
@@ -1647,6 +1649,16 @@ class SymExec:
     def store(self, t, v, p: SymPath, node):
         if isinstance(t, ast.Name):
             p.locs[t.id] = v
+            p.preds.pop(t.id, None)
+            val = getattr(node, "value", None)
+            if isinstance(node, (ast.Assign, ast.AnnAssign)) and val is not None and not isinstance(getattr(node, "targets", [None])[0], (ast.Tuple, ast.List)):
+                e, neg = val, False
+                while isinstance(e, ast.UnaryOp) and isinstance(e.op, ast.Not):
+                    e, neg = e.operand, not neg
+                if isinstance(e, ast.Compare):
+                    a, b = lin_cmp(e, p.subst(), negate=neg), lin_cmp(e, p.subst(), negate=not neg)
+                    if a is not None:
+                        p.preds[t.id] = (a, b, val)
         elif isinstance(t, ast.Attribute) and isinstance(t.value, ast.Name) and t.value.id == "self":
             p.fields[t.attr] = v
             p.events.append(("write", t.attr, node, dict(p.fields)))
@@ -1703,6 +1715,12 @@ class SymExec:
         if isinstance(e, ast.UnaryOp) and isinstance(e.op, ast.Not):
             t, f = self.branch(e.operand, p)
             return f, t
+        if isinstance(e, ast.Name) and e.id in p.preds:
+            a, b = p, p.copy()
+            gt, gf, _ = p.preds[e.id]
+            a.guards.append((gt, e, True))
+            b.guards.append((gf, e, False))
+            return [a], [b]
         a, b = p, p.copy()
         nf_t = lin_cmp(e, p.subst())
         if nf_t is not None:
@@ -1754,6 +1772,11 @@ class ModelObj:
         m = type(self)._methods.get(name)
         if m is None:
             raise AttributeError(name)
+        decos = {(dotted(d) or "").split(".")[-1] for d in getattr(m, "decorator_list", [])}
+        if "staticmethod" in decos:
+            return lambda *a, **k: MiniEval.call(m, a, k)
+        if "classmethod" in decos:
+            return lambda *a, **k: MiniEval.call(m, (type(self),) + a, k)
         return lambda *a, **k: MiniEval.call(m, (self,) + a, k)
 
     def __lt__(self, o):
@@ -2093,6 +2116,16 @@ def swallowing_predicate(mod, func):
             return True
         if isinstance(e, ast.IfExp):
             return is_sw(e.body, depth + 1) and is_sw(e.orelse, depth + 1)
+        if isinstance(e, ast.Call) and isinstance(e.func, (ast.Name, ast.Attribute)):
+            name = e.func.id if isinstance(e.func, ast.Name) else (e.func.attr if isinstance(e.func.value, ast.Name) and e.func.value.id == "self" else None)
+            helper = mod.find(name) if name and isinstance(e.func, ast.Name) else None
+            if helper is None and name:
+                for c in mod.classes():
+                    if func in c.body:
+                        helper = methods(c).get(name)
+            if isinstance(helper, (ast.FunctionDef,)):
+                rets = [r for r in ast.walk(helper) if isinstance(r, ast.Return) and mod.enclosing_function(r) is helper]
+                return bool(rets) and all(r.value is not None and swallowing_predicate(mod, helper)(r.value) for r in rets) if depth < 3 else False
         if isinstance(e, ast.Name):
             local = [s.value for s in ast.walk(func) if isinstance(s, ast.Assign) and any(isinstance(t, ast.Name) and t.id == e.id for t in s.targets)]
             if local:
